@@ -53,8 +53,9 @@ RULE = ("random sequences of ask / ask_dqd / tell / tell_dqd calls (about 30 % o
         "with objective=None, long sequences; both add modes, with/without result archive, with/without extra "
         "fields; archive dtypes float64 / float32 / dict form chosen independently for archive and result archive "
         "(also the dtypes of the extra fields), evaluation values that are not representable in float32 and "
-        "objectives that differ by less than float32 resolution; tells with a wrong-length argument anywhere in the "
-        "sequence, followed by calls of either kind; "
+        "objectives that differ by less than float32 resolution; tells with a malformed argument (wrong length; right "
+        "length but NaN / inf in objective, measures or the Jacobian; wrong inner shape of measures, the Jacobian or "
+        "an extra field) anywhere in the sequence, followed by calls of either kind; "
         "every case is run a second time in the other add mode for the archive-contents comparison. A case "
         "is non-trivial when an accepted tell routes rows of at least two emitters with unequal batch sizes, or "
         "contains a rejected call made after rows were inserted; counted once per distinct op list")
@@ -64,7 +65,14 @@ ASSUMPTIONS = [
     "measures, extra fields, Jacobian) is derived injectively from (iteration, row position) by the harness",
     "the archive is observed through a subclass that records the arguments and the return value of add / "
     "add_single (public methods) and through data()",
-    "emitters and archives do not raise",
+    "the spy emitters validate what they are told the way library emitters do (finite values, (n,), "
+    "(n, measure_dim), (n, measure_dim + 1, solution_dim) and the extra fields' shapes) and raise ValueError "
+    "otherwise; on valid input emitters and archives do not raise",
+    "a tell rejected with ValueError (any malformed argument) must have called neither archive nor emitter and must "
+    "leave both archives' contents unchanged. Readings kept: archive and result archive of a case differ only in "
+    "dtype, so the accepted reading 'a differently configured result_archive may reject rows the archive has already "
+    "accepted' is never exercised; non-finite objective / measures faults in add_mode='single' are placed in row 0 "
+    "(see SINGLE_MODE_LATE_ROW_FAULTS: later rows are inserted one by one before the faulty row is reached)",
     "after a tell / tell_dqd rejected with ValueError (wrong-length array) the property does not say whether the "
     "pending ask is consumed (the code records the call before validating: the next legal call is ask / ask_dqd) or "
     "kept (the tell may be retried); the oracle accepts both readings and tracks the set of protocol states they "
@@ -89,6 +97,11 @@ TRUSTED_EXTRA = [
 SOLDIM = 3
 MDIM = 2
 STATS = {}
+# In add_mode="single" a NaN / inf objective or measure in row i > 0 is only noticed when add_single reaches row i:
+# rows 0..i-1 are then already in the archive(s) (reported to the lead, undecided: defect or reading).  While this is
+# False the non-finite objective / measures faults of single-mode cases are placed in row 0; True makes the check
+# report the partial insertion.
+SINGLE_MODE_LATE_ROW_FAULTS = False
 
 
 def stat(key, k=1):
@@ -211,12 +224,30 @@ def make_spies(archive, descr, log):
         def ask(self):
             return self._gen(False)
 
+        def _validate(self, entry):
+            """what every library emitter does first in tell (validate_batch): shapes and finiteness"""
+            n = len(entry["solution"])
+            want = {"objective": (n,), "measures": (n, MDIM), "jacobian": (n, 1 + MDIM, SOLDIM)}
+            for name, shape in want.items():
+                arr = entry[name]
+                if arr is None:
+                    continue
+                if arr.shape != shape:
+                    raise ValueError(f"spy emitter {self.idx}: {name} has shape {arr.shape}, expected {shape}")
+                if not np.all(np.isfinite(arr)):
+                    raise ValueError(f"spy emitter {self.idx}: {name} is not finite")
+            for name, shape in (("tag", (n,)), ("vec", (n, 2))):
+                if name in entry["fields"] and entry["fields"][name].shape != shape:
+                    raise ValueError(f"spy emitter {self.idx}: field {name} has shape "
+                                     f"{entry['fields'][name].shape}, expected {shape}")
+
         def tell(self, solution, objective, measures, add_info, **fields):
             log.append({"ev": "tell", "dqd": False, "em": self.idx, "solution": np.array(solution),
                         "objective": None if objective is None else np.array(objective),
                         "measures": np.array(measures), "jacobian": None,
                         "add_info": {k: np.array(v) for k, v in add_info.items()},
                         "fields": {k: np.array(v) for k, v in fields.items()}})
+            self._validate(log[-1])
 
         def tell_dqd(self, solution, objective, measures, jacobian, add_info, **fields):
             log.append({"ev": "tell", "dqd": True, "em": self.idx, "solution": np.array(solution),
@@ -224,6 +255,7 @@ def make_spies(archive, descr, log):
                         "measures": np.array(measures), "jacobian": np.array(jacobian),
                         "add_info": {k: np.array(v) for k, v in add_info.items()},
                         "fields": {k: np.array(v) for k, v in fields.items()}})
+            self._validate(log[-1])
 
     class DqdSpy(Spy):
         """DQD emitter: generates rows in ask_dqd() as well."""
@@ -355,8 +387,15 @@ def gen_with(kind, rng, long=False):
     def bad_op(ph):
         which = ["measures"] + (["objective"] if kind != "proximity" else []) + (["tag"] if case["extra"] else [])
         dq = (ph == "askdqd") if (ph in ("ask", "askdqd") and rng.random() < 0.85) else rng.random() < 0.5
-        return {"op": "telldqdbad" if dq else "tellbad", "seed": rng.randrange(1 << 30),
-                "which": rng.choice(which + (["jacobian"] if dq else []))}
+        fault = rng.choice(["length", "nan", "inf", "shape", "shape"])
+        if fault in ("nan", "inf"):
+            which = ["measures"] + (["objective"] if kind != "proximity" else [])
+        elif fault == "shape":
+            which = ["measures"] + (["vec"] if case["extra"] else [])
+        if dq:
+            which = which + ["jacobian", "jacobian"]
+        return {"op": "telldqdbad" if dq else "tellbad", "seed": rng.randrange(1 << 30), "fault": fault,
+                "which": rng.choice(which), "row": rng.randrange(64)}
 
     for _ in range(nops):
         legal = {"none": ["ask", "askdqd"], "tell": ["ask", "askdqd"], "telldqd": ["ask", "askdqd"],
@@ -501,13 +540,36 @@ def run_mode(case, mode, drv):
                 jac = ev["jacobian"]
                 if bad:
                     w = op["which"]
-                    longer = lambda a: np.concatenate([a, a[:1]]) if len(a) else np.zeros((1,) + a.shape[1:], a.dtype)
+                    if w != "jacobian" and (w not in args or args[w] is None):
+                        w = "measures"
+                    fault = op.get("fault", "length")
+                    n_now = len(ev["measures"])
+                    if n_now == 0:
+                        fault = "length"  # no row to put a bad value into / shapes of empty batches are not looked at
+                    target = np.array(jac if w == "jacobian" else args[w], dtype=None)
+                    if fault == "length":
+                        target = np.concatenate([target, target[:1]]) if len(target) else \
+                            np.zeros((1,) + target.shape[1:], target.dtype)
+                    elif fault in ("nan", "inf"):
+                        row = op.get("row", 0) % n_now
+                        if mode == "single" and w != "jacobian" and not SINGLE_MODE_LATE_ROW_FAULTS:
+                            row = 0
+                        target = target.astype(float)
+                        target[(row,) + (0,) * (target.ndim - 1)] = np.nan if fault == "nan" else \
+                            (np.inf if op.get("row", 0) % 2 else -np.inf)
+                    else:  # wrong inner shape, right length
+                        if target.ndim == 1:  # objective / tag: one column too many
+                            target = np.stack([target, target], axis=1)
+                        elif w == "jacobian":  # (n, measure_dim, solution_dim): the objective gradient is missing
+                            target = target[:, 1:, :]
+                        else:  # measures / vec: one column too many
+                            target = np.concatenate([target, target[:, :1]], axis=1)
+                    if drv is not None:
+                        stat(f"fault:{fault}:{w}")
                     if w == "jacobian":
-                        jac = longer(jac)
-                    elif w in args and args[w] is not None:
-                        args[w] = longer(args[w])
+                        jac = target
                     else:
-                        args["measures"] = longer(args["measures"])
+                        args[w] = target
                 with warnings.catch_warnings():
                     warnings.simplefilter("ignore")
                     if base == "tell":
@@ -533,13 +595,18 @@ def run_mode(case, mode, drv):
             phases = phases - can  # the implementation follows the reading in which this call is out of order
         elif bad:
             if got != "err value":
-                return Failure("corr", f"{where}: wrong-length argument gave {got}, expected ValueError"), None, None
+                return Failure("corr", f"{where}: malformed argument ({op.get('fault', 'length')} fault in "
+                               f"{op['which']}) gave {got}, expected ValueError"), None, None
             # both readings from here on: pending ask kept (`can`) or consumed (`base`)
             phases = can | {base}
         elif got != "ok":
             return Failure("oracle", f"{where}: in-order call raised {got}: {exc}"), None, None
         if got != "ok":
-            if new:
+            # an archive `add` that changed nothing is harmless (C11 reading: the store does not look at the fields
+            # when no row would be inserted, so one archive may notice a mis-shaped field that the other did not):
+            # what matters is that no emitter was called and that the contents of both archives are unchanged.
+            # An out-of-order call must not reach the archives at all.
+            if [e for e in new if e["ev"] != "add" or got == "err runtime"]:
                 return Failure("oracle", f"{where}: rejected call ({got}) still called "
                                f"{[(e['ev'], e.get('em')) for e in new]}"), None, None
             if canon_data(archive) != before_a or (result is not None and canon_data(result) != before_r):
@@ -841,7 +908,8 @@ def _bandit_gen(rng):
 def _bandit_run(case):
     from props import c16
     f = c16.run_case(case)
-    if f is not None and f.kind == "oracle" and (" was told " in f.what or " was asked " in f.what or "ask returned" in f.what):
+    if f is not None and f.kind == "oracle" and (" was told " in f.what or " was asked " in f.what or "ask returned" in f.what
+                                                 or "ask result" in f.what or "asked [" in f.what):
         return Failure("oracle", "[BanditScheduler routing] " + f.what)
     return None
 
